@@ -109,6 +109,7 @@ type Gen struct {
 	heapSorts  map[string]Sort
 	heapRange  map[string][2]string // heaps of small integers: lo, hi of every cell
 	aliases    map[string]map[string]string // package path -> import alias -> imported path
+	sentinelNewCache map[string]bool
 	direct     map[string]map[string]bool   // package path -> paths its source files import (a package loaded from export data lists every package its export data mentions)
 	heapCell   map[string]types.Type        // heap key -> Go type of one cell
 }
@@ -365,8 +366,66 @@ func (c *FnCtx) heap(st *State, key string, s Sort) Term {
 // sentinelFact: package-level error variables named Err* are sentinel values created once by
 // errors.New / fmt.Errorf and never reassigned: non-nil (listed assumption).
 func (c *FnCtx) sentinelFact(name string, t types.Type, v Term) {
+	c.sentinelFactPkg("", name, t, v)
+}
+
+// sentinelNew: the package initialiser assigns the variable the result of errors.New / fmt.Errorf -
+// an allocation of its own, so two such variables never hold the same value (a variable initialised
+// from another error variable is an alias and gets no such fact).
+func (g *Gen) sentinelNew(pkgPath, name string) bool {
+	key := pkgPath + "." + name
+	if g.sentinelNewCache == nil {
+		g.sentinelNewCache = map[string]bool{}
+	}
+	if v, ok := g.sentinelNewCache[key]; ok {
+		return v
+	}
+	res := false
+	for _, p := range g.prog.AllPackages() {
+		if p.Pkg.Path() != pkgPath {
+			continue
+		}
+		gl, _ := p.Members[name].(*ssa.Global)
+		init := p.Func("init")
+		if gl == nil || init == nil {
+			break
+		}
+		for _, b := range init.Blocks {
+			for _, in := range b.Instrs {
+				st, ok := in.(*ssa.Store)
+				if !ok || st.Addr != gl {
+					continue
+				}
+				val := st.Val
+				if mi, ok := val.(*ssa.MakeInterface); ok {
+					val = mi.X
+				}
+				if call, ok := val.(*ssa.Call); ok {
+					if f := call.Common().StaticCallee(); f != nil {
+						fn := f.String()
+						if fn == "errors.New" || fn == "fmt.Errorf" {
+							res = true
+						}
+					}
+				}
+			}
+		}
+	}
+	g.sentinelNewCache[key] = res
+	return res
+}
+
+func (c *FnCtx) sentinelFactPkg(pkgPath, name string, t types.Type, v Term) {
+	if pkgPath != "" && isErrorType(t) && c.g.sentinelNew(pkgPath, name) {
+		c.g.u.declareFun("sentinel_id", []Sort{SInt}, SInt)
+		c.define(eq(mk(SInt, "sentinel_id", v), c.g.u.strConst("sentinel:"+pkgPath+"."+name)))
+	}
 	if isErrorType(t) && (strings.HasPrefix(name, "Err") || (strings.HasPrefix(name, "err") && len(name) > 3 && name[3] >= 'A' && name[3] <= 'Z') || name == "Canceled" || name == "DeadlineExceeded" || name == "EOF") {
 		c.define(gt(v, tZero))
+		if c.entry != nil {
+			// created at package initialisation: older than anything allocated during the call
+			c.define(lt(v, c.next(c.entry)))
+		}
 		c.g.note("sentinel error variables (Err*) are non-nil and never reassigned")
 	}
 }
@@ -459,7 +518,7 @@ func (c *FnCtx) load(st *State, a *Addr) Term {
 	case aGlobal:
 		key := "G_" + mangle(a.global.Pkg.Pkg.Path()+"."+a.global.Name())
 		root := c.heap(st, key, c.g.u.sortOf(a.rootType))
-		c.sentinelFact(a.global.Name(), a.rootType, root)
+		c.sentinelFactPkg(a.global.Pkg.Pkg.Path(), a.global.Name(), a.rootType, root)
 		return c.readPath(root, a.path)
 	case aHeap:
 		key, s := c.g.heapKeyFor(a.rootType)
